@@ -12,6 +12,7 @@ import Ctrmml.Spec.SeqWf
 import Ctrmml.Proofs.CodecBreak
 import Ctrmml.Proofs.CodecWalkLoops
 import Ctrmml.Proofs.CodecTrack
+import Ctrmml.Proofs.SongChunk
 namespace Ctrmml.C03
 open Ctrmml Ctrmml.Mds Ctrmml.Seq Tables
 
@@ -270,5 +271,126 @@ example : ∃ bytes, convertTrack 0 0 ([⟨0xa6, 24⟩] ++ [⟨mds_JUMP, 0⟩]) 
 example : linL [.loopB [.ev ⟨0xa6, 2⟩] [.xbrk, .call 0 []] 2] = true ∧
     brkOkL false [.loopB [.ev ⟨0xa6, 2⟩] [.xbrk, .call 0 []] 2] = true := by decide
 example : linL [.loop [.ev ⟨0xa6, 24⟩] 2] = true ∧ noBreakL [.loop [.ev ⟨0xa6, 24⟩] 2] = true := by decide
+
+/-! ## Whole songs of the plain fragment (third layer; the fragment and the extra hypotheses are those of
+`C02_song_roundtrip_partial`, Properties/C02.lean) -/
+
+theorem isCmd_mask (x : Tk) : SongTop.isCmd (Timeline.maskTk x) = SongTop.isCmd x := by
+  cases x with
+  | cmd op a =>
+    simp only [Timeline.maskTk]
+    split
+    · rfl
+    · split <;> rfl
+  | _ => rfl
+
+theorem mark_of_mk {l : List Tk} (h : Tk.loopMark ∈ l) : Tk.loopMark ∈ SongSem.mk l :=
+  List.mem_map.mpr ⟨Tk.loopMark, h, rfl⟩
+
+theorem noncmd_of_mk {l : List Tk} (h : ∃ tk ∈ SongSem.mk l, SongTop.isCmd tk = false) : ∃ tk ∈ l, SongTop.isCmd tk = false := by
+  obtain ⟨tk, hm, hc⟩ := h
+  obtain ⟨x, hx, rfl⟩ := List.mem_map.mp hm
+  exact ⟨x, hx, by rw [← isCmd_mask]; exact hc⟩
+
+theorem dropWhile_mark {a r : List Tk} (ha : Tk.loopMark ∉ a) :
+    (a ++ Tk.loopMark :: r).dropWhile (· != Tk.loopMark) = Tk.loopMark :: r := by
+  induction a with
+  | nil => simp [List.dropWhile]
+  | cons x a ih =>
+    have hx : x ≠ Tk.loopMark := fun h => ha (by simp [h])
+    have : (x != Tk.loopMark) = true := by simpa using hx
+    simp only [List.cons_append, List.dropWhile, this]
+    exact ih (fun h => ha (by simp [h]))
+
+theorem dropWhile_nomark {a : List Tk} (ha : Tk.loopMark ∉ a) : a.dropWhile (· != Tk.loopMark) = [] := by
+  induction a with
+  | nil => rfl
+  | cons x a ih =>
+    have hx : x ≠ Tk.loopMark := fun h => ha (by simp [h])
+    have : (x != Tk.loopMark) = true := by simpa using hx
+    simp only [List.dropWhile, this]
+    exact ih (fun h => ha (by simp [h]))
+
+theorem takeWhile_mark {a r : List Tk} (ha : Tk.loopMark ∉ a) :
+    (a ++ Tk.loopMark :: r).takeWhile (· != Tk.loopMark) = a := by
+  induction a with
+  | nil => simp [List.takeWhile]
+  | cons x a ih =>
+    have hx : x ≠ Tk.loopMark := fun h => ha (by simp [h])
+    have : (x != Tk.loopMark) = true := by simpa using hx
+    simp only [List.cons_append, List.takeWhile, this]
+    rw [ih (fun h => ha (by simp [h]))]
+
+/-- **C03 for whole songs of the plain fragment.**  For every channel track in `Timeline.inDomain`
+whose expected tick string is defined, with `start` = the position the track table lists:
+ * the instruction walker, started there as `SeqWf.checkAll` starts it, accepts the stream — every
+   instruction is decoded inside the chunk, loop starts and ends are balanced, every loop-break
+   offset lands on the instruction behind its loop end, the stream ends with a terminator at loop
+   depth 0, the loop-back jump lands on an instruction boundary of the stream at loop depth 0;
+ * however often the loop-back jump is followed, with whatever fuel and tick limit, the
+   interpreter stops only with `finished`, `fuel` or `tooManyTicks`: it never reads outside the
+   chunk, never meets an unknown opcode, a missing length or an empty loop stack — through all
+   calls and returns;
+ * with the jump followed twice, a run that finishes passes at least one tick of note or rest time
+   between the two loop marks: the loop-back jump spans time. -/
+theorem C03_song_wellformed_partial (song : Song) (d : DataInfo) (vol : Option String) (pf : Timeline.Platform)
+    (b : MdsFile.Built) (hpc : PlatformClean d) (hp : SongTop.PlainSong song)
+    (hb : MdsFile.construct song d vol = .ok b) (hlen : b.seq.length < 65536) :
+    ∀ id root t, (id, root) ∈ song.tracks → id < 16 → Timeline.inDomain song root = true →
+      SongSplit.segCount root ≤ 1 → Timeline.expected song pf root = .ok t →
+      ∃ base ts start, tracksOf b.seq = some (base, ts) ∧ ts.lookup id = some start ∧
+        (∃ len, start + len ≤ b.seq.length ∧
+          ∀ fuel, fuel ≥ len → SeqWf.walk b.seq start fuel { pc := start } = .ok (start + len)) ∧
+        (∀ mj maxTicks fuel, (run b.seq base mj maxTicks fuel { pc := start }).2 ∈
+          [Stop.finished, Stop.fuel, Stop.tooManyTicks]) ∧
+        (∀ maxTicks fuel, (run b.seq base 2 maxTicks fuel { pc := start }).2 = Stop.finished →
+          SeqWf.ticksBetweenLoops (run b.seq base 2 maxTicks fuel { pc := start }).1 ≠ some 0) := by
+  intro id root t hmem hid hdom hcnt hexp
+  have hseg := SongTop.inDomain_segno hdom
+  obtain ⟨ts, stream, pre, htr, hlk, hpre, hres⟩ := SongTop.song_plays hpc hp hb hlen pf hmem hid hseg hcnt hexp 0
+  refine ⟨_, ts, pre.length, htr, hlk, ⟨stream.length, ?_, hres.walks⟩, ?_, ?_⟩
+  · have := hpre.length_le; simpa using this
+  · intro mj maxTicks fuel
+    obtain ⟨ts', stream', pre', htr', hlk', _, hres'⟩ := SongTop.song_plays hpc hp hb hlen pf hmem hid hseg hcnt hexp mj
+    rw [htr] at htr'; injection htr' with htr'; injection htr' with _ htr'; subst htr'
+    rw [hlk] at hlk'; injection hlk' with hlk'
+    obtain ⟨X, Y, TA, TB, loops, s', hreach, hfin, _⟩ := hres'.plays
+    rw [← hlk'] at hreach
+    rcases run_stop_of_reach (maxTicks := maxTicks) hreach hfin fuel with h | h | h <;> simp [h]
+  · intro maxTicks fuel hfinished
+    obtain ⟨ts', stream', pre', htr', hlk', _, hres'⟩ := SongTop.song_plays hpc hp hb hlen pf hmem hid hseg hcnt hexp 2
+    rw [htr] at htr'; injection htr' with htr'; injection htr' with _ htr'; subst htr'
+    rw [hlk] at hlk'; injection hlk' with hlk'
+    obtain ⟨X, Y, TA, TB, loops, s', hreach, hfin, hout, hX, hY, _, htime, hnX, hnY⟩ := hres'.plays
+    rw [← hlk'] at hreach
+    have ho := run_out_of_reach (maxTicks := maxTicks) hreach hfin (by decide) fuel hfinished
+    rw [ho, hout, List.reverse_reverse]
+    have hnA : Tk.loopMark ∉ TA := fun h => hnX (by rw [← hX]; exact mark_of_mk h)
+    have hnB : Tk.loopMark ∉ TB := fun h => hnY (by rw [← hY]; exact mark_of_mk h)
+    cases loops with
+    | false =>
+      simp only [Bool.false_eq_true, if_false]
+      unfold SeqWf.ticksBetweenLoops
+      rw [dropWhile_nomark (by
+        intro h; rcases List.mem_append.mp h with h | h
+        · exact hnA h
+        · exact hnB h)]
+      simp
+    | true =>
+      simp only [if_true]
+      obtain ⟨tk, htk, hck⟩ := noncmd_of_mk (by rw [hY]; exact htime rfl)
+      have e1 : TA ++ repeatL 2 (TB ++ [Tk.loopMark]) ++ TB = (TA ++ TB) ++ Tk.loopMark :: (TB ++ Tk.loopMark :: TB) := by
+        simp [repeatL, List.append_assoc]
+      have hnAB : Tk.loopMark ∉ TA ++ TB := by
+        intro h; rcases List.mem_append.mp h with h | h
+        · exact hnA h
+        · exact hnB h
+      unfold SeqWf.ticksBetweenLoops
+      rw [e1, dropWhile_mark hnAB]
+      simp only [takeWhile_mark hnB]
+      intro h0
+      simp only [Option.some.injEq, List.length_eq_zero_iff, List.filter_eq_nil_iff] at h0
+      have := h0 tk htk
+      cases tk <;> simp [SongTop.isCmd] at hck this
 
 end Ctrmml.C03
